@@ -220,6 +220,19 @@ def run(tier, seed):
             p = rng.randrange(0, len(x) + 1)
             x[p:p] = rng.choice([b"\x1f" + b"\xff" * 12 + b"\x7f", b"\x3f\x80\x80\x01", b"\x00\x00", b"\xbf\xff"])
         hostile.append(("mutated:" + m, bytes(x)))
+    # over-long tag and length octet runs (the TL scratch buffer of unber), bare and nested
+    for n in (3, 4, 5, 9, 10, 29, 30, 31, 32, 33, 34, 40, 64, 200, 1000):
+        for fill in (b"\x80", b"\xff", b"\x81"):
+            t = b"\x1f" + fill * n
+            hostile.append(("long-tag", t + b"\x01\x00"))
+            hostile.append(("long-tag", t))
+            hostile.append(("long-tag", b"\x30\x80" + t + b"\x01\x00\x00\x00"))
+            hostile.append(("long-tag", b"\xbf" + fill * n + b"\x7f\x00"))
+    for n in (4, 5, 8, 9, 16, 29, 30, 31, 32, 33, 64, 126):
+        for fill in (b"\x00", b"\xff", b"\x01"):
+            hostile.append(("long-length", b"\x04" + bytes([0x80 | n]) + fill * n + b"AAAA"))
+            hostile.append(("long-length", b"\x30\x80\x04" + bytes([0x80 | n]) + fill * n))
+            hostile.append(("long-length", b"\x1f\x81\x81\x01" + bytes([0x80 | n]) + fill * (n - 1) + b"\x01A"))
     for depth in ([1000, 10000] if quick else [1000, 10000, 100000]):
         hostile.append(("bomb-indef-%d" % depth, b"\x30\x80" * depth))
         hostile.append(("bomb-def-%d" % depth, b"\x30\x84\x7f\xff\xff\xff" * depth))
